@@ -39,6 +39,7 @@ struct HistWorld : World {
         if (prop == "C02") { mulw(w, "DEL_", 3); setw(w, "MODE", 5); setw(w, "CLEAR", 1); setw(w, "BU", 3); }
         if (prop == "C03") { if (p.kernel == "tet") setw(w, "COLLAPSE", 5); mulw(w, "P_", 2); mulw(w, "DEL_", 2); mulw(w, "SWAP_", 2); setw(w, "GC", 5); setw(w, "CLEAR", 1); setw(w, "P_CREATE_PERSISTENT", 1); setw(w, "P_CREATE_SHARED", 1); setw(w, "RESERVE", 3); }
         if (prop == "C04") { mulw(w, "DEL_", 3); setw(w, "GC", 12); setw(w, "MODE", 5); }
+        if (prop == "C08") { setw(w, "BAD_FACE", 4); }
         if (prop == "C09") { setw(w, "SET_F", 0); setw(w, "SET_C", 0); setw(w, "ADD_TET", 18); setw(w, "BU", 3); setw(w, "DEL_C", 6); setw(w, "DEL_F", 4); setw(w, "ADD_PILLOW", 3); }
         if (prop == "C11") { setw(w, "BAD_FACE", 8); setw(w, "BAD_CELL", 8); mulw(w, "ADD_", 2); setw(w, "BU", 3); }
         if (prop == "C12") { setw(w, "BU", 12); mulw(w, "DEL_", 2); mulw(w, "SWAP_", 2); setw(w, "GC", 5); setw(w, "MODE", 4); }
